@@ -1384,14 +1384,10 @@ Module CheckExamples.
      configuration of the theorem sign-extends it (MSB), as C does.  The two translations differ, so the behaviour is reported
      as not covered (for start + len <= 32 the extracted field does not depend on the fill, but `covered` compares terms). *)
   Definition p_sxtb32 := one (asg (reg "R" "d") (mac "sextract64" [reg "R" "s"; num 0; num 8])).
-  Example sxtb32_in_fragment_not_covered :
-    covered 0 p_sxtb32 = false /\
-    (match sfrags_check (rw_of_prog p_sxtb32) (IM_of p_sxtb32) [] [] p_sxtb32 with Some _ => true | None => false end) = true /\
+  (* (before the fix: commit for D3 the real configuration zero-extended the signed 32 bit argument and this behaviour was not covered) *)
+  Example sxtb32_covered :
+    covered 0 p_sxtb32 = true /\
     tlower (cfg_insn 0) p_sxtb32 =
-      OK (EWriteReg (RIsa "R" "d" false)
-            (PCast 32 (PMsb (PApp "SEXTRACT64" [PCast 64 (PBool false) (PReg (RIsa "R" "s" false) false); PBv true 32 0; PBv true 32 8]))
-               (PApp "SEXTRACT64" [PCast 64 (PBool false) (PReg (RIsa "R" "s" false) false); PBv true 32 0; PBv true 32 8])), 0%N) /\
-    tlower (cfg_thm 0) p_sxtb32 =
       OK (EWriteReg (RIsa "R" "d" false)
             (PCast 32 (PMsb (PApp "SEXTRACT64" [PCast 64 (PMsb (PReg (RIsa "R" "s" false) false)) (PReg (RIsa "R" "s" false) false); PBv true 32 0; PBv true 32 8]))
                (PApp "SEXTRACT64" [PCast 64 (PMsb (PReg (RIsa "R" "s" false) false)) (PReg (RIsa "R" "s" false) false); PBv true 32 0; PBv true 32 8])), 0%N).
